@@ -194,17 +194,17 @@ CLAIMED = {
        'write is held.',
   ref='6/C02', technique='Lean 4 proof (case analysis of the reply choice over arbitrary result lists; invariant of the enqueue event order) + differential correspondence vs real SmtpEdge/WsgiEdge/Queue/ProxyQueue'),
  'C06': dict(
-  text='PARTIAL (composition across the hop is stated per leg, not as one end-to-end theorem about a combined client+server machine; TLS and '
+  text='PARTIAL (the SMTP hop is one end-to-end theorem about the client\'s bytes run through the server\'s command loop with accepting validators; the HTTP hop is stated per leg; TLS and '
        'the email package are outside the model as in C08/C20; Python\'s lenient base64 decoder is modelled on encoder output only). Lean theorems: '
        'the MAIL / RCPT command line Client.mailfrom / rcptto build for any clean address (every \'>\' inside a double-quoted run, quotes balanced, '
        'backslash escapes honoured, no line break; with or without SIZE) is parsed by the server model (parseCommand, matchPrefix, splitAddr of '
        'Model/Server.lean, the model tied to the real Server by C07/C09) into exactly that address and the parameter text; an EHLO extension line '
        'built by Extensions.build_string is parsed back by parse_string into the same name and parameter; base64 decoding inverts encoding for every byte string; the '
        'recipients of the HTTP transport (one base64 header per recipient, joined with commas by the WSGI server, split on \\s*[,;]\\s*) come back as the same '
-       'byte strings in the same order; content across DATA is C05\'s theorem, replies C17\'s. Tied to the code by real hops: StaticSmtpRelay -> '
+       'byte strings in the same order. End to end over SMTP (hop_delivers, session_delivers, session_delivers_any_segmentation): for every clean UTF-8 sender, every non-empty list of such recipients, every message cut into parts at line boundaries and within the SIZE limit, any number of messages on one connection and any segmentation of the bytes, the server\'s handlers see exactly that sender, those recipients in order and the CRLF-terminated message, each command is answered 250 / 354, and the session continues between transactions with exactly the bytes that followed (uses C05\'s reader theorem and C09\'s segmentation theorem). Tied to the code by real hops: StaticSmtpRelay -> '
        'socketpair -> SmtpEdge, HttpRelay -> loopback pywsgi -> WsgiEdge, StaticLmtpRelay -> recording LMTP peer, over generated envelopes (null '
        'sender, quoted / escaped / UTF-8 local parts, 1..20 recipients, C20 contents) x server configurations (PIPELINING / 8BITMIME / SMTPUTF8 / SIZE, '
-       'EHLO 500 -> HELO, queue verdicts, two messages per connection), wire bytes tapped and compared with the model, plus unit differentials.',
+       'EHLO 500 -> HELO, queue verdicts, two messages per connection), wire bytes tapped and compared with the model line by line and as whole transactions (hopBytes, with the parts the relay client handed to Client.send_data), plus unit differentials.',
   ref='6/C06', technique='Lean 4 proof (round-trip theorems by induction over the scanners; base64 by arithmetic) + differential / end-to-end correspondence vs real relay clients and edges',
   note='Partial: per-leg theorems composed informally; TLS, email package and lenient base64 decoding outside the model.'),
  'C14': dict(
